@@ -12,6 +12,9 @@ fn main() {
         std::process::exit(2);
     }
     install_panic_hook();
+    if args[0] == "miri-lane" {
+        std::process::exit(props::miri_lane::lane_main(&args[1..]));
+    }
     if args[0] == "selftest" {
         match sci_common::dist::selftest(sci_common::REF_DIST_JSON) {
             Ok(st) => {
